@@ -208,6 +208,70 @@ theorem held_two_plans (f1 f2 : Nat) (s : St) (q : List (List Char)) (p1 p2 : Li
   simp only
   rw [← e1, ← e2]
 
+/-! ## numbers in lines: `from_str_radix(…, 16)` as modelled reads back every value below the bound -/
+
+def hexChr (d : Nat) : Char := if d < 10 then Char.ofNat (48 + d) else Char.ofNat (87 + d)
+
+theorem hexDigit_hexChr_fin : ∀ d : Fin 16, hexDigit (hexChr d.val) = some d.val := by decide
+
+theorem hexDigit_hexChr (d : Nat) (h : d < 16) : hexDigit (hexChr d) = some d := hexDigit_hexChr_fin ⟨d, h⟩
+
+theorem hexChr_not_sign_fin : ∀ d : Fin 16, hexChr d.val ≠ '+' ∧ hexChr d.val ≠ '-' := by decide
+
+/-- exactly k hex digits of n (leading zeros), most significant first -/
+def hexStrK : Nat → Nat → List Char
+  | 0, _ => []
+  | k + 1, n => hexStrK k (n / 16) ++ [hexChr (n % 16)]
+
+theorem hexDigits_hexStrK (bound : Nat) : ∀ (k n acc : Nat) (rest : List Char),
+    n < 16 ^ k → acc * 16 ^ k + n < bound →
+    hexDigits bound (hexStrK k n ++ rest) acc = hexDigits bound rest (acc * 16 ^ k + n) := by
+  intro k
+  induction k with
+  | zero => intro n acc rest hn hb; simp at hn; subst hn; simp [hexStrK]
+  | succ k ih =>
+    intro n acc rest hn hb
+    have h16 : 16 ^ (k + 1) = 16 ^ k * 16 := by rw [Nat.pow_succ]
+    have hdiv : n / 16 < 16 ^ k := by rw [h16] at hn; omega
+    have hmod : n % 16 < 16 := Nat.mod_lt _ (by decide)
+    simp only [hexStrK, List.append_assoc, List.singleton_append]
+    have hb' : acc * 16 ^ k + n / 16 < bound := by
+      rw [h16] at hb
+      have : acc * (16 ^ k * 16) = (acc * 16 ^ k) * 16 := by rw [Nat.mul_assoc]
+      omega
+    rw [ih (n / 16) acc (hexChr (n % 16) :: rest) hdiv hb']
+    simp only [hexDigits, hexDigit_hexChr _ hmod]
+    have e : (acc * 16 ^ k + n / 16) * 16 + n % 16 = acc * 16 ^ (k + 1) + n := by
+      rw [h16, Nat.add_mul, Nat.mul_assoc]; omega
+    rw [e, if_pos hb]
+
+theorem hexStrK_head (k n : Nat) : ∃ d t, d < 16 ∧ hexStrK (k + 1) n = hexChr d :: t := by
+  induction k generalizing n with
+  | zero => exact ⟨n % 16, [], Nat.mod_lt _ (by decide), by simp [hexStrK]⟩
+  | succ k ih =>
+    obtain ⟨d, t, hd, ht⟩ := ih (n / 16)
+    exact ⟨d, t ++ [hexChr (n % 16)], hd, by rw [hexStrK, ht]; simp⟩
+
+/-- **every address / value below the bound, written with any number k ≥ 1 of hex digits that holds it (leading zeros
+    included), is parsed back to itself** — e.g. all 2^32 addresses and all 256 byte values of `u8:` lines -/
+theorem fromStrRadix16_hexStrK (bound k n : Nat) (hn : n < 16 ^ (k + 1)) (hb : n < bound) :
+    fromStrRadix16 bound (hexStrK (k + 1) n) = some n := by
+  obtain ⟨d, t, hd, ht⟩ := hexStrK_head k n
+  have hs := hexChr_not_sign_fin ⟨d, hd⟩
+  have hmain := hexDigits_hexStrK bound (k + 1) n 0 [] hn (by simpa using hb)
+  simp only [List.append_nil, Nat.zero_mul, Nat.zero_add] at hmain
+  have hres : hexDigits bound [] n = some n := by simp [hexDigits]
+  rw [ht] at hmain ⊢
+  unfold fromStrRadix16
+  split
+  · simp at *
+  · rename_i h; injection h with h1 h2; exact absurd h1 hs.1
+  · rename_i h; injection h with h1 h2; exact absurd h1 hs.2
+  · rename_i cs h; injection h with h1 h2; exact absurd h1 hs.1
+  · rw [hmain, hres]
+
+example : fromStrRadix16 (2 ^ 32) (hexStrK 6 0xffc000) = some 0xffc000 := fromStrRadix16_hexStrK _ 5 _ (by decide) (by decide)
+
 /-! ## what lines mean (examples of the parser on the statement's line kinds; evaluated by the kernel) -/
 
 example : parseLine "cmd:pause".toList = .pause := by decide
